@@ -97,7 +97,16 @@ fn check_hour(ctx: &Ctx, civ: &Civil, tm: &Terms, inst: i64, loc: &mut Local) {
         ctx.violation("eight_char", key.clone(), format!("get_eight_char = {:?} (SixtyCycleHour: {}), model = {:?}", ec, secn, want), rp.clone());
       }
       if ec2 != want2 {
-        ctx.violation("eight_char_sect2", key, format!("LunarSect2 provider = {:?}, model (no day roll) = {:?}", ec2, want2), rp);
+        ctx.violation("eight_char_sect2", key.clone(), format!("LunarSect2 provider = {:?}, model (no day roll) = {:?}", ec2, want2), rp.clone());
+      }
+      // the (deprecated) day officer read off the eight characters: (day branch - month branch) mod 12
+      if (inst / 3600) % 7 == 0 {
+        #[allow(deprecated)]
+        let d = guard(|| mk_time(civ, inst).get_lunar_hour().get_eight_char().get_duty().get_index());
+        let wd = (pillar_idx(&want[2]).unwrap() as i64 % 12 - pillar_idx(&want[1]).unwrap() as i64 % 12).rem_euclid(12) as usize;
+        if d != Ok(wd) {
+          ctx.violation("route", format!("{} EightChar::get_duty", key), format!("EightChar::get_duty index {:?}; model (day branch - month branch) mod 12 = {} for [{}]", d, wd, want.join(" ")), rp);
+        }
       }
     }
     Err(m) => {
